@@ -292,7 +292,7 @@ func cmdCheck(args []string) int {
 		}
 	}
 	if len(retry) > 0 && len(retry) <= 64 {
-		solveAll(retry, filepath.Join(workDir, "retry"), timeoutS*3, 4)
+		solveAll(retry, filepath.Join(workDir, "retry"), timeoutS*2, 8)
 	}
 
 	// vacuity: each function must have at least one reachable return
@@ -340,6 +340,7 @@ func cmdCheck(args []string) int {
 	exit := 0
 	var samples []map[string]interface{}
 	replayDir := filepath.Join(*outDir, "replays", prop)
+	os.RemoveAll(replayDir)
 	os.MkdirAll(replayDir, 0o755)
 	sort.SliceStable(obls, func(i, j int) bool { return obls[i].Name < obls[j].Name })
 	for _, o := range obls {
